@@ -48,7 +48,7 @@ func (c *channelHolder) CloseAll(err error) {
 	c.mutex.Unlock()
 
 	for _, ch := range channels {
-		verifYield("h.close", nil)
+		verifYieldCh("h.close", ch)
 		ch.Close(err)
 	}
 }
